@@ -2,6 +2,7 @@
   C09 — Signatures are verified with exactly the algorithm the COSE key declares.
 -/
 import Proofs.Cose
+import Proofs.Cbor
 import Props.C05
 namespace Webauthn.Props.C09
 open Webauthn Generated
@@ -79,5 +80,106 @@ theorem okp_only_eddsa {kty alg crv x : Cbor} {pk : PubKey}
   simp only [coseToPubKey] at h
   rw [rejectE_ok] at h; obtain ⟨h1, _⟩ := h
   simpa using h1
+
+/-! ### COSE_Key encode → decode yields precisely that key (closed form, any coordinates) -/
+
+theorem cborOfInt_wf {alg : Int} (h1 : -(2 ^ 64 : Int) ≤ alg) (h2 : alg < 2 ^ 64) : Cbor.WF (cborOfInt alg) := by
+  unfold cborOfInt
+  split
+  · simp only [Cbor.WF]; omega
+  · simp only [Cbor.WF]; omega
+
+theorem cborOfInt_truthy {alg : Int} (h : alg ≠ 0) : (cborOfInt alg).truthy = true := by
+  unfold cborOfInt
+  split
+  · simp only [Cbor.truthy, bne_iff_ne]; omega
+  · rfl
+
+theorem cborOfInt_asInt (alg : Int) : (cborOfInt alg).asInt? = some alg := by
+  unfold cborOfInt
+  split
+  · simp only [Cbor.asInt?]; congr 1; omega
+  · simp only [Cbor.asInt?]; congr 1; omega
+
+theorem map_head_ne_04 (kvs : List (Cbor × Cbor)) (h : kvs.length < 24) :
+    ∃ b tl, Cbor.enc (.map kvs) = b :: tl ∧ (b == 0x04) = false := by
+  refine ⟨(5 * 32 + kvs.length).toUInt8, Cbor.encPairs kvs, ?_, ?_⟩
+  · simp [Cbor.enc, Cbor.head, h]
+  · have : (5 * 32 + kvs.length).toUInt8.toNat = 5 * 32 + kvs.length := Cbor.toUInt8_toNat (by omega)
+    rw [beq_eq_false_iff_ne]
+    intro hb
+    have h2 := congrArg UInt8.toNat hb
+    rw [this] at h2
+    have h4 : (4 : UInt8).toNat = 4 := rfl
+    omega
+
+/-- EC2 keys on any of the three curves, any declared algorithm, coordinates of any length
+(leading zero bytes included) decode to exactly the members that were encoded. -/
+theorem decode_encode_ec2 (alg : Int) (crv : Nat) (x y : Bytes)
+    (ha : alg ≠ 0) (ha1 : -(2 ^ 64 : Int) ≤ alg) (ha2 : alg < 2 ^ 64) (hc : 0 < crv) (hc2 : crv < 2 ^ 64)
+    (hx : x ≠ []) (hy : y ≠ []) (hxl : x.length < 2 ^ 64) (hyl : y.length < 2 ^ 64) :
+    decodeCose (encodeEc2 alg crv x y) = .ok (.ec2 (.uint 2) (cborOfInt alg) (.uint crv) (.bytes x) (.bytes y)) := by
+  unfold encodeEc2
+  obtain ⟨b, tl, hb, hne⟩ := map_head_ne_04
+    [(.uint 1, .uint 2), (.uint 3, cborOfInt alg), (.nint 0, .uint crv), (.nint 1, .bytes x), (.nint 2, .bytes y)] (by simp)
+  have hwf : Cbor.WF (.map [(.uint 1, .uint 2), (.uint 3, cborOfInt alg), (.nint 0, .uint crv), (.nint 1, .bytes x),
+      (.nint 2, .bytes y)]) := by
+    simp only [Cbor.WF, Cbor.WFPairs, Cbor.isScalarKey, cborOfInt_wf ha1 ha2, and_true, true_and]
+    refine ⟨by simp, by rfl, by omega, by omega, by omega, by omega, hc2, by omega, hxl,
+      by omega, hyl⟩
+  have hp := parseCbor_enc _ [] hwf
+  rw [List.append_nil] at hp
+  unfold decodeCose
+  rw [hb] at hp ⊢
+  simp only [hne, Bool.false_eq_true, ↓reduceIte, hp, bind, Except.bind]
+  have hxt : (Cbor.bytes x).truthy = true := by cases x <;> simp_all [Cbor.truthy]
+  have hyt : (Cbor.bytes y).truthy = true := by cases y <;> simp_all [Cbor.truthy]
+  have hct : (Cbor.uint crv).truthy = true := by simp [Cbor.truthy]; omega
+  have hkt : (Cbor.uint 2).truthy = true := rfl
+  have hat := cborOfInt_truthy ha
+  simp [decodeCoseMap, coseMember, Cbor.lookupInt, Cbor.asInt?, requireTruthy, hat, hxt, hyt,
+    hct, hkt, rejectE, bind, Except.bind, pure, Except.pure]
+
+theorem decode_encode_rsa (alg : Int) (n e : Bytes)
+    (ha : alg ≠ 0) (ha1 : -(2 ^ 64 : Int) ≤ alg) (ha2 : alg < 2 ^ 64)
+    (hn : n ≠ []) (he : e ≠ []) (hnl : n.length < 2 ^ 64) (hel : e.length < 2 ^ 64) :
+    decodeCose (encodeRsa alg n e) = .ok (.rsa (.uint 3) (cborOfInt alg) (.bytes n) (.bytes e)) := by
+  unfold encodeRsa
+  obtain ⟨b, tl, hb, hne⟩ := map_head_ne_04
+    [(.uint 1, .uint 3), (.uint 3, cborOfInt alg), (.nint 0, .bytes n), (.nint 1, .bytes e)] (by simp)
+  have hwf : Cbor.WF (.map [(.uint 1, .uint 3), (.uint 3, cborOfInt alg), (.nint 0, .bytes n), (.nint 1, .bytes e)]) := by
+    simp only [Cbor.WF, Cbor.WFPairs, Cbor.isScalarKey, cborOfInt_wf ha1 ha2, and_true, true_and]
+    refine ⟨by simp, by rfl, by omega, by omega, by omega, by omega, hnl, by omega, hel⟩
+  have hp := parseCbor_enc _ [] hwf
+  rw [List.append_nil] at hp
+  unfold decodeCose
+  rw [hb] at hp ⊢
+  simp only [hne, Bool.false_eq_true, ↓reduceIte, hp, bind, Except.bind]
+  have hnt : (Cbor.bytes n).truthy = true := by cases n <;> simp_all [Cbor.truthy]
+  have het : (Cbor.bytes e).truthy = true := by cases e <;> simp_all [Cbor.truthy]
+  have hkt : (Cbor.uint 3).truthy = true := rfl
+  have hat := cborOfInt_truthy ha
+  simp [decodeCoseMap, coseMember, Cbor.lookupInt, Cbor.asInt?, requireTruthy, hat, hnt, het,
+    hkt, rejectE, bind, Except.bind, pure, Except.pure]
+
+theorem decode_encode_okp (x : Bytes) (hx : x ≠ []) (hxl : x.length < 2 ^ 64) :
+    decodeCose (encodeOkp x) = .ok (.okp (.uint 1) (.nint 7) (.uint 6) (.bytes x)) := by
+  unfold encodeOkp
+  obtain ⟨b, tl, hb, hne⟩ := map_head_ne_04
+    [(.uint 1, .uint 1), (.uint 3, .nint 7), (.nint 0, .uint 6), (.nint 1, .bytes x)] (by simp)
+  have hwf : Cbor.WF (.map [(.uint 1, .uint 1), (.uint 3, .nint 7), (.nint 0, .uint 6), (.nint 1, .bytes x)]) := by
+    simp only [Cbor.WF, Cbor.WFPairs, Cbor.isScalarKey, and_true, true_and]
+    refine ⟨by simp, by rfl, by omega, by omega, by omega, by omega, by omega, by omega, by omega, hxl⟩
+  have hp := parseCbor_enc _ [] hwf
+  rw [List.append_nil] at hp
+  unfold decodeCose
+  rw [hb] at hp ⊢
+  simp only [hne, Bool.false_eq_true, ↓reduceIte, hp, bind, Except.bind]
+  have hxt : (Cbor.bytes x).truthy = true := by cases x <;> simp_all [Cbor.truthy]
+  have h1 : (Cbor.uint 1).truthy = true := rfl
+  have h2 : (Cbor.nint 7).truthy = true := rfl
+  have h3 : (Cbor.uint 6).truthy = true := rfl
+  simp [decodeCoseMap, coseMember, Cbor.lookupInt, Cbor.asInt?, requireTruthy, hxt, h1, h2, h3,
+    rejectE, bind, Except.bind, pure, Except.pure]
 
 end Webauthn.Props.C09
